@@ -185,3 +185,9 @@ def run(ctx: Ctx, rep: Report, tier: str):
     from rules.common import creation_dispatch
     rep.rule("C04.R10", "creations and renames are dispatched apart (C02.R12): a rename is propagated by handle_rename, never re-created; a creation never renames", 4)
     creation_dispatch(ctx, rep, "C04.R10")
+    from rules.common import rename_copy_guard
+    rep.rule("C04.R11", "a rename on a path-id provider keeps the renamed object's own peer: SyncState.update grafts the other entry's peer half only onto an entry that has none", 1)
+    rename_copy_guard(ctx, rep, "C04.R11")
+    from rules.C02 import C02 as _C02
+    _alias(rep, ["C02.R3"], "C04.R12", "a delete is dropped in favour of a pending creation only when the creation is pending on the OTHER side (C02.R3): delete + re-create of "
+           "the same name on one side still deletes the old object", 2, lambda: _C02(ctx, rep).r3())
